@@ -63,6 +63,7 @@ def payloads(C):
         ras.append((Slice(d.content, os_, oe), ins))
     ras.append((Slice.empty, 0))
     C.ras = ras
+    watch_fitter()
     return C
 
 
@@ -98,12 +99,33 @@ def uses_b(kind):
                     "add_mark", "remove_mark", "remove_mark_type", "remove_mark_all", "lift", "wrap", "set_block_type")
 
 
+FIT_BUDGET = 4000     # calls/back-edges inside transform/replace.py per operation; measured maximum over the whole
+                      # catalogue on the reference tree: 154.  A fitter that does not terminate becomes StepBudgetExceeded.
+
+
+def watch_fitter():
+    import inspect
+
+    import prosemirror.transform.replace as R
+    from engine import stepbudget
+    fns = [f for _n, f in inspect.getmembers(R.Fitter, inspect.isfunction)]
+    fns += [R.replace_step, R.fits_trivially, R.drop_from_fragment, R.add_to_fragment, R.content_at, R.close_node_start,
+            R.content_after_fits, R.close_fragment, R.covered_depths]
+    stepbudget.watch(*fns)
+
+
 class Skip(Exception):
     """The operation's own precondition (helper approval, payload availability) does not hold."""
 
 
 def run_op(C, tr, kind, a, b, x):
-    """Performs one operation on the Transform; may raise whatever the library raises."""
+    """Performs one operation on the Transform under the fitter step budget; may raise whatever the library raises."""
+    from engine import stepbudget
+    with stepbudget.budget(FIT_BUDGET):
+        return _run_op(C, tr, kind, a, b, x)
+
+
+def _run_op(C, tr, kind, a, b, x):
     doc = tr.doc
     if kind == "delete":
         return tr.delete(a, b)
